@@ -120,6 +120,13 @@ func ValidFor(t *rapid.T, entry string) (b []byte, typ int, hot []int) {
 	case "lease_set2.ReadLeaseSet2":
 		spec := LS2G(t, "ls2", nil)
 		spec.Options = wireOrder(t, "ls2-opt", spec.Options)
+		if rapid.IntRange(0, 15).Draw(t, "manyleases") == 0 {
+			// a lease count beyond the limit of 16 with that many leases present (the
+			// library refuses these; whoever accepts them must still frame them by the count)
+			for n := rapid.IntRange(17, 40).Draw(t, "nleases"); len(spec.Leases) < n; {
+				spec.Leases = append(spec.Leases, Lease2Spec{Seed: uint64(len(spec.Leases)) + 1, Tunnel: 7, End: 1800000000})
+			}
+		}
 		ls, _, _ := spec.Build()
 		return ls.Encode(), 0, hotHeader(ls.Header, len(model.MustMapping(ls.Options)))
 	case "meta_leaseset.ReadMetaLeaseSet":
